@@ -142,6 +142,45 @@ impl<KT: DbMapKeyType> FileDbXxxInner<KT> {
 // delete: NEW
 impl<KT: DbMapKeyType> FileDbXxxInner<KT> {}
 
+// relink: a key piece has moved
+impl<KT: DbMapKeyType> FileDbXxxInner<KT> {
+    /// The key piece of `old_offset` was rewritten at `new_offset`.
+    /// Makes its predecessor in the bucket chain, or the bucket, refer to the new place.
+    /// The rewritten predecessor can move too, then this goes on toward the bucket.
+    fn relink_moved_key_piece(
+        &mut self,
+        hash: HashValue,
+        old_offset: KeyPieceOffset,
+        new_offset: KeyPieceOffset,
+    ) -> Result<()> {
+        let mut old_offset = old_offset;
+        let mut new_offset = new_offset;
+        loop {
+            // find the predecessor of the old place. the old place is not read.
+            let mut prev_offset = KeyPieceOffset::new(0);
+            let mut offset = self.htx_file.read_key_piece_offset(hash)?;
+            {
+                let mut locked_key = self.key_file.0.borrow_mut();
+                while offset != old_offset && !offset.is_zero() {
+                    prev_offset = offset;
+                    offset = locked_key.read_piece_only_bucket_next_offset(offset)?;
+                }
+            }
+            if prev_offset.is_zero() {
+                return self.htx_file.write_key_piece_offset(hash, new_offset);
+            }
+            let mut prev_key_piece = self.key_file.read_piece(prev_offset)?;
+            prev_key_piece.bucket_next_offset = new_offset;
+            let new_prev_key_piece = self.key_file.write_piece(prev_key_piece)?;
+            if new_prev_key_piece.offset == prev_offset {
+                return Ok(());
+            }
+            old_offset = prev_offset;
+            new_offset = new_prev_key_piece.offset;
+        }
+    }
+}
+
 // find: NEW
 impl<KT: DbMapKeyType> FileDbXxxInner<KT> {
     fn find_in_hash_buckets_kt(
@@ -250,7 +289,8 @@ impl<KT: DbMapKeyType> DbXxxObjectSafe<KT> for FileDbXxxInner<KT> {
         if let Some((key_offset, _prev_key_offset)) = opt {
             let new_key_offset = self.store_value_on_insert(key_offset, value)?;
             if key_offset != new_key_offset {
-                unimplemented!("key_offset != new_key_offset : in put_kt");
+                _cold();
+                self.relink_moved_key_piece(hash, key_offset, new_key_offset)?;
             }
         } else {
             _cold();
@@ -288,7 +328,7 @@ impl<KT: DbMapKeyType> DbXxxObjectSafe<KT> for FileDbXxxInner<KT> {
                 let new_prev_key = self.key_file.write_piece(prev_key_piece)?;
                 if _prev_key_offset != new_prev_key.offset {
                     _cold();
-                    panic!("_prev_key_offset != new_prev_key_offset : in del_kt");
+                    self.relink_moved_key_piece(hash, _prev_key_offset, new_prev_key.offset)?;
                 }
             }
             //
